@@ -15,6 +15,22 @@ def p14():
     return P14
 
 
+def two_byte_variations(rnd, p, n):
+    """p with two bytes of one 8-byte word changed in opposite directions (the more significant one decides)"""
+    out = []
+    pb = bytearray(p.to_bytes(256, "big"))
+    for _ in range(n):
+        w = rnd.randrange(0, 32)
+        i, j = sorted(rnd.sample(range(8 * w, 8 * w + 8), 2))
+        b = bytearray(pb)
+        d = rnd.choice([1, -1])
+        if 0 <= b[i] + d <= 255 and 0 <= b[j] - d <= 255:
+            b[i] += d
+            b[j] -= d
+            out.append(int.from_bytes(b, "big"))
+    return out
+
+
 def main(c):
     rnd = random.Random(c.seed)
     exe = g.build(c, "accel")
@@ -45,6 +61,7 @@ def main(c):
         lines.append("dhkeyi %s %s %s" % (h(y, 512), h(rnd.choice(privs), 64), h(rnd.choice(blinds), 64)))
     for y in (peers + [p - 1 - (1 << k) for k in (0, 8, 2040)] + [p + (1 << k) for k in (0, 8, 1000)] + [p ^ (1 << k) for k in range(0, 2048, 97)]
               + [p - (1 << k) for k in range(0, 2048, c.pick(37, 5))] + [p + (1 << k) for k in range(0, 2047, c.pick(41, 5))]
+              + two_byte_variations(rnd, p, c.pick(40, 400))
               + [p - rnd.getrandbits(k) for k in (9, 60, 70, 200, 1000, 1990, 2040)] + [p + rnd.getrandbits(k) for k in (9, 60, 70, 200, 1000, 1980)]):
         if 0 <= y < (1 << 2048):
             lines.append("dhsane " + h(y, 512))
